@@ -212,7 +212,13 @@ func canonical(e *Expr) bool {
 }
 
 func (e *Expr) cmpTyped() bool {
-	if e.Typed != 0 && e.CT != TStr {
+	if e.CT == TStr {
+		// repaired codegen (fixes/C01-string-compare-builtin-operand): String
+		// operands always get scmp; the unrepaired one agrees on the main stream,
+		// whose String comparisons take capture groups and literals only
+		return true
+	}
+	if e.Typed != 0 {
 		return e.Typed > 0
 	}
 	return canonical(e.A)
